@@ -66,3 +66,9 @@ CLAIMS['C09'] = dict(technique=GOCV,
        "chosen by the negotiated content type (422/400 for protocol errors, else 200); content negotiation without explicit header yields one of the two GraphQL media types, empty Accept => application/json; "
        "Server.getTransport returns the first supporting transport; ServeHTTP lets no panic escape and answers 422 once on a recovered panic, 400 without transport.",
   note=COMMON_NOTE + "executor interface contract assumed here and proved under C03; header map contents and JSON body validity not decided.")
+
+CLAIMS['C15'] = dict(technique=GOCV,
+  text="AutomaticPersistedQuery.MutateOperationParameters against the cache invariant Inv (every entry (k,v) has hashOf(v)==k, hashOf = hex(sha256) uninterpreted): Cache.Add is only reachable with the request's own text after computeQueryHash(text) equalled the supplied hash "
+       "(call-site precondition hashOf(value)==key), so Inv is preserved on every path and hence after every request history including evictions; a hash-only request either fails with PersistedQueryNotFound or continues with exactly the cached text whose hash is the requested one; "
+       "a mismatching text+hash request returns an error, adds nothing and leaves the query unchanged; requests without the extension touch nothing.",
+  note=COMMON_NOTE + "SHA-256/hex trusted (collision resistance assumed); Cache implementations may forget but never invent entries; mapstructure trusted. That a rejected request executes nothing is the C03 gate.")
